@@ -255,6 +255,20 @@ pub fn gen_for(target: Target, rng: &mut Rng) -> Node {
         Target::I64 => Node::Int(rng.below(1_000_000) as i64 - 500_000),
         Target::F64 => Node::Float(rng.pick(&["1.5", "-2.25", "1e10", ".inf", ".nan", "0.1", "7"]).to_string()),
         Target::Bool => Node::Bool(rng.chance(1, 2)),
+        Target::FirstEntry => {
+            let n = 1 + rng.below(3);
+            Node::Map((0..n).map(|i| (gen_key(rng, i), Node::Int(rng.below(100) as i64))).collect())
+        }
+        Target::LenientRoot => match rng.below(3) {
+            0 => Node::Int(rng.below(1000) as i64),
+            1 => Node::Str(gen_string(rng)),
+            _ => Node::Seq(vec![Node::Int(1), Node::Int(2)]),
+        },
+        Target::TagEn => match rng.below(3) {
+            0 => Node::Str("Start".into()),
+            1 => Node::Map(vec![("Speed".into(), Node::Int(rng.below(100) as i64))]),
+            _ => Node::Map(vec![("Note".into(), Node::Str(gen_string(rng)))]),
+        },
     }
 }
 
